@@ -233,7 +233,7 @@ def run(ctx):
                        "only parseFrame is driven here: daemon-owned automata objects are not the responder's retained state"]
     binary = H.build(ctx.work, "asan")
     scns = [make_baseline()] + make_repeat(ctx, ctx.n(39, 390), 1000)
-    scns += make_mixed(ctx, ctx.n(40, 1000), ctx.n(20000, 100000))
+    scns += make_mixed(ctx, ctx.n(40, 192), ctx.n(20000, 100000))
     scns.append(make_flood(ctx, ctx.n(40000, 100000)))
     scns.append(make_cyclic_flood(ctx, ctx.n(40000, 100000)))
     # every shard's partial report carries its own stash; merge them by hand afterwards
@@ -261,7 +261,7 @@ def run(ctx):
                 rep.violation("C19:allocations-survive-reset", "scenario %s: after the final topology Reset %d allocations / %d bytes are live; "
                               "an interface that only ever saw a Reset holds %d / %d" % (sid, cnt, byt, base[0], base[1]))
     c = rep.counters
-    rep.need("after_reset_checked", c.get("after_reset_checked", 0), ctx.n(40, 1000))
+    rep.need("after_reset_checked", c.get("after_reset_checked", 0), ctx.n(40, 192))
     rep.need("repeat_checked", c.get("repeat_checked", 0), ctx.n(39, 390))
     rep.need("plateau_checked or violation", c.get("plateau_checked", 0) + sum(1 for k in rep.viol if k.startswith("C19:retained")), 2)
-    rep.need("mixed_frames", c.get("mixed_frames", 0), ctx.n(700000, 9 * 10 ** 7))
+    rep.need("mixed_frames", c.get("mixed_frames", 0), ctx.n(700000, 17 * 10 ** 6))
